@@ -474,3 +474,246 @@ theorem tryFraction_false {c : Converter Rat} {q : SQuantity Rat}
         | text t => rfl
 
 end Cook
+
+namespace Cook
+open Arith
+
+/-! ### `fit_fraction` -/
+
+theorem fracCandidates_spec (c : Converter Rat) (value : Rat) (unit : Unit Rat) :
+    ∀ (es : List (Rat × Unit Rat)) (cands : List (Number Rat × Unit Rat)),
+      fracCandidates c value unit es = .ok cands →
+      ∀ p ∈ cands, p.2 ∈ es.map (·.2) ∧ convertF64 value unit p.2 = some p.1.value := by
+  intro es
+  induction es with
+  | nil =>
+    intro cands h p hp
+    simp only [fracCandidates, Except.ok.injEq] at h
+    subst h; cases hp
+  | cons e rest ih =>
+    intro cands h p hp
+    unfold fracCandidates at h
+    split at h
+    · have := ih cands h p hp
+      exact ⟨by simp [this.1], this.2⟩
+    · split at h
+      · cases h
+      · rename_i nv hnv
+        split at h
+        · have := ih cands h p hp
+          exact ⟨by simp [this.1], this.2⟩
+        · rename_i n hn
+          split at h
+          · cases h
+          · rename_i r hr
+            simp only [Except.ok.injEq] at h; subst h
+            rcases List.mem_cons.mp hp with rfl | hp'
+            · refine ⟨by simp, ?_⟩
+              simp only
+              rw [approx_value hn]; exact hnv
+            · have := ih r hr p hp'
+              exact ⟨by simp [this.1], this.2⟩
+
+theorem fracCandidates_error (c : Converter Rat) (value : Rat) (unit : Unit Rat) :
+    ∀ (es : List (Rat × Unit Rat)) (e : ConvErr),
+      fracCandidates c value unit es = .error e → e = .panic .mixedAssert := by
+  intro es
+  induction es with
+  | nil => intro e h; simp [fracCandidates] at h
+  | cons x rest ih =>
+    intro e h
+    unfold fracCandidates at h
+    split at h
+    · exact ih e h
+    · split at h
+      · simp only [Except.error.injEq] at h; exact h.symm
+      · split at h
+        · exact ih e h
+        · split at h
+          · rename_i err herr
+            simp only [Except.error.injEq] at h; subst h
+            exact ih _ herr
+          · cases h
+
+theorem fracCandidates_ok (c : Converter Rat) (value : Rat) (unit : Unit Rat) :
+    ∀ (es : List (Rat × Unit Rat)), (∀ e ∈ es, e.2.pq = unit.pq) →
+      ∃ cands, fracCandidates c value unit es = .ok cands := by
+  intro es
+  induction es with
+  | nil => intro _; exact ⟨[], rfl⟩
+  | cons x rest ih =>
+    intro hq
+    obtain ⟨r, hr⟩ := ih (fun e he => hq e (List.mem_cons_of_mem _ he))
+    unfold fracCandidates
+    split
+    · exact ⟨r, hr⟩
+    · split
+      · rename_i hn
+        exact absurd hn (convertF64_ne_none _ _ _ (hq x (List.mem_cons_self)).symm)
+      · split
+        · exact ⟨r, hr⟩
+        · rw [hr]; exact ⟨_, rfl⟩
+
+theorem foldl_minStep_mem (xs : List (Number Rat × Unit Rat)) (x : Number Rat × Unit Rat) :
+    xs.foldl minStep x ∈ x :: xs := by
+  induction xs generalizing x with
+  | nil => simp
+  | cons y ys ih =>
+    simp only [List.foldl_cons]
+    have := ih (minStep x y)
+    rcases List.mem_cons.mp this with h | h
+    · rw [h]
+      unfold minStep
+      split <;> simp
+    · simp [h]
+
+theorem minByKey_mem {l : List (Number Rat × Unit Rat)} {x : Number Rat × Unit Rat}
+    (h : minByKey l = some x) : x ∈ l := by
+  cases l with
+  | nil => cases h
+  | cons a as =>
+    simp only [minByKey, Option.some.injEq] at h
+    rw [← h]; exact foldl_minStep_mem as a
+
+theorem minByKey_none {l : List (Number Rat × Unit Rat)} (h : minByKey l = none) : l = [] := by
+  cases l with
+  | nil => rfl
+  | cons a as => cases h
+
+/-- what the second half of `fit_fraction` leaves: the selected fraction in the selected unit
+    (and the range end converted to it) -/
+theorem fitFractionApply_spec (c : Converter Rat) (q : SQuantity Rat) (unit : Unit Rat)
+    (sel : Number Rat × Unit Rat) (v : Rat) (hv : convertF64 v unit sel.2 = some sel.1.value)
+    (hfirst : q.value.parts.head? = some v)
+    (hr : sel.2.ratio ≠ 0) (hid : unit.id = sel.2.id → unit = sel.2)
+    (hsym : sel.2.symbol?.isSome = true) (hpq : unit.pq = sel.2.pq) :
+    ∃ q', fitFractionApply c q unit sel = (q', .ok true) ∧ q'.unit = sel.2.symbol? ∧
+       q'.unit.isSome = true ∧ amounts q'.value.parts sel.2 = amounts q.value.parts unit := by
+  unfold fitFractionApply
+  cases hs : sel.2.symbol? with
+  | none => rw [hs] at hsym; cases hsym
+  | some sym =>
+    simp only
+    cases hq : q.value with
+    | number n =>
+      simp only
+      refine ⟨_, rfl, rfl, rfl, ?_⟩
+      simp only [hq, Value.parts, List.head?_cons, Option.some.injEq] at hfirst
+      simp only [Value.parts, amounts, List.map_cons, List.map_nil]
+      rw [hfirst, convertF64_some_amount hv hr hid]
+    | range s e =>
+      simp only
+      simp only [hq, Value.parts, List.head?_cons, Option.some.injEq] at hfirst
+      cases he : convertF64 e.value unit sel.2 with
+      | none => exact absurd he (convertF64_ne_none _ _ _ hpq)
+      | some e' =>
+        simp only
+        refine ⟨_, rfl, rfl, rfl, ?_⟩
+        simp only [Value.parts, amounts, List.map_cons, List.map_nil]
+        rw [hfirst, convertF64_some_amount hv hr hid]
+        have hev : ((c.approx e' (c.fractionsConfig sel.2)).getD (.regular e')).value = e' := by
+          cases ha : c.approx e' (c.fractionsConfig sel.2) with
+          | none => rfl
+          | some f => exact approx_value ha
+        rw [hev, convertF64_some_amount he hr hid]
+    | text t =>
+      simp [hq, Value.parts] at hfirst
+
+end Cook
+
+namespace Cook
+open Arith
+
+/-- `q'`, whose unit text resolves to `nu`, states the amounts that `q` stated in `u` -/
+structure Restated (c : Converter Rat) (q : SQuantity Rat) (u : Unit Rat) (q' : SQuantity Rat)
+    (nu : Unit Rat) : Prop where
+  mem : nu ∈ c.allUnits
+  info : unitInfo c q' = some nu
+  pq : nu.pq = u.pq
+  amounts : amounts q'.value.parts nu = amounts q.value.parts u
+
+theorem unitInfo_congr (c : Converter Rat) {q q' : SQuantity Rat} (h : q'.unit = q.unit) :
+    unitInfo c q' = unitInfo c q := by
+  unfold unitInfo; rw [h]
+
+theorem unitInfo_symbol {c : Converter Rat} (hc : c.Sound) {nu : Unit Rat} (hm : nu ∈ c.allUnits)
+    {q : SQuantity Rat} (h : q.unit = nu.symbol?) (hs : q.unit.isSome = true) :
+    unitInfo c q = some nu := by
+  unfold unitInfo
+  cases hu : q.unit with
+  | none => rw [hu] at hs; cases hs
+  | some s =>
+    simp only
+    exact hc.find_symbol hm (by rw [← h, hu])
+
+theorem unitInfo_mem {c : Converter Rat} {q : SQuantity Rat} {u : Unit Rat}
+    (h : unitInfo c q = some u) : u ∈ c.allUnits := by
+  unfold unitInfo at h
+  split at h
+  · cases h
+  · exact findUnit_mem h
+
+theorem Restated.refl {c : Converter Rat} {q : SQuantity Rat} {u : Unit Rat}
+    (h : unitInfo c q = some u) : Restated c q u q u :=
+  ⟨unitInfo_mem h, h, rfl, rfl⟩
+
+theorem Restated.trans {c : Converter Rat} {q q1 q2 : SQuantity Rat} {u u1 u2 : Unit Rat}
+    (h1 : Restated c q u q1 u1) (h2 : Restated c q1 u1 q2 u2) : Restated c q u q2 u2 :=
+  ⟨h2.mem, h2.info, h2.pq.trans h1.pq, h2.amounts.trans h1.amounts⟩
+
+/-- the three ways `fit_fraction` can end -/
+inductive FitFractionOutcome (c : Converter Rat) (q : SQuantity Rat) (unit : Unit Rat)
+    (target : Option System) : SQuantity Rat × Except ConvErr Bool → Prop where
+  | failed (t : Str) (hv : q.value = .text t) (ht : target.isSome = true) :
+      FitFractionOutcome c q unit target (q, .error (.textValue t))
+  | declined : FitFractionOutcome c q unit target (q, .ok false)
+  | fitted (q' : SQuantity Rat) (nu : Unit Rat) (hr : Restated c q unit q' nu)
+      (hlist : ∀ s, target = some s → nu ∈ ((c.best unit.pq).conversions s).unitsOf)
+      (hnone : target = none → q'.unit = q.unit) :
+      FitFractionOutcome c q unit target (q', .ok true)
+
+theorem fitFractionWith_spec {c : Converter Rat} (hc : c.Sound) (q : SQuantity Rat) (unit : Unit Rat)
+    (hu : unit ∈ c.allUnits) (system : System) (v : Rat) (hfirst : q.value.parts.head? = some v) :
+    FitFractionOutcome c q unit (some system) (fitFractionWith c q unit system v) := by
+  unfold fitFractionWith
+  have hq : ∀ e ∈ ((c.best unit.pq).conversions system).entries, e.2.pq = unit.pq :=
+    fun e he => (hc.best_mem _ _ _ (List.mem_map.mpr ⟨e, he, rfl⟩)).2
+  obtain ⟨cands, hc'⟩ := fracCandidates_ok c v unit _ hq
+  rw [hc']
+  simp only
+  split
+  · exact .declined
+  · rename_i sel hsel
+    have hmem := minByKey_mem hsel
+    have hs := fracCandidates_spec c v unit _ _ hc' sel hmem
+    have hlist : sel.2 ∈ ((c.best unit.pq).conversions system).unitsOf := hs.1
+    have hb := hc.best_mem _ _ _ hlist
+    obtain ⟨q', hq', hunit, hsome, hamt⟩ := fitFractionApply_spec c q unit sel v hs.2 hfirst
+      (hc.ratio_ne _ hb.1) (hc.id_inj _ _ hu hb.1) (hc.symbol _ hb.1) hb.2.symm
+    rw [hq']
+    refine .fitted q' sel.2 ⟨hb.1, unitInfo_symbol hc hb.1 hunit hsome, hb.2, hamt⟩ ?_ ?_
+    · intro s hs'; cases hs'; exact hlist
+    · intro h; cases h
+
+theorem fitFraction_spec {c : Converter Rat} (hc : c.Sound) (q : SQuantity Rat) (unit : Unit Rat)
+    (hinfo : unitInfo c q = some unit) (target : Option System) :
+    FitFractionOutcome c q unit target (fitFraction c q unit target) := by
+  have hu := unitInfo_mem hinfo
+  unfold fitFraction
+  cases target with
+  | none =>
+    simp only
+    cases hb : (tryFraction c q).2 with
+    | false => rw [tryFraction_false hb]; exact .declined
+    | true =>
+      refine .fitted _ unit ⟨hu, ?_, rfl, ?_⟩ (by intro s hs; cases hs) (fun _ => tryFraction_unit c q)
+      · rw [unitInfo_congr c (tryFraction_unit c q)]; exact hinfo
+      · rw [tryFraction_parts]
+  | some system =>
+    simp only
+    cases hv : q.value with
+    | text t => exact .failed t hv rfl
+    | number n => exact fitFractionWith_spec hc q unit hu system n.value (by simp [hv, Value.parts])
+    | range s e => exact fitFractionWith_spec hc q unit hu system s.value (by simp [hv, Value.parts])
+
+end Cook
